@@ -145,9 +145,15 @@ PROPS = {
             'Cell.add_app', 'Cell.remove_app')],
         'replay': 'scheduler.py',
         'assumptions': SCHED_ASSUME + [
-            'history closure: Cell.schedule assumes the between-cycles identity invariant (ident_between); it is '
-            'proved to be preserved by add_app, remove_app, configure_identity_group, remove_identity_group and by '
-            'the cycle itself; Loader.restore_placement/force_set_identity (master start-up) are not yet under contract',
+            'history closure: Cell.schedule assumes the between-cycles identity invariant (ident_between: groups '
+            'consistent, held identities distinct, not on the free list, non-negative); it is proved to be preserved by '
+            'add_app, remove_app, configure_identity_group, remove_identity_group and by the cycle itself; '
+            'Loader.restore_placement/force_set_identity (master start-up) are not under contract. Clause 4 (not placed '
+            '=> no identity) is NOT assumed at cycle entry any more: it is established by the cycle for every instance '
+            'whatever was held before (a removed server leaves unplaced holders)',
+            'every instance of the cell belongs to exactly one partition (uninterpreted app_label), that partition is in '
+            'Cell.partitions, and Allocation.utilization_queue of a partition lists exactly the cell\'s instances of '
+            'that partition (C06 clause 1 / InvAlloc; assumed contract)',
         ],
     },
     'C08': {
@@ -211,6 +217,31 @@ PROPS = {
             'real division by a symbolic positive divisor is an uninterpreted function with the sign law as an axiom; '
             'np.finfo(float).eps is some positive real; floats as reals (ties in utilisation not modelled)',
             'generator executed eagerly to the list of yielded values',
+        ],
+    },
+    'C12': {
+        'contract_modules': ['c12_eventmgr'],
+        'functions': ['treadmill.eventmgr:EventMgr._cache', 'treadmill.eventmgr:EventMgr._synchronize'],
+        'replay': 'c12.py',
+        'assumptions': [
+            'ZooKeeper is a read-only store during one synchronisation: zk_has(path) / ZK_DATA[path] / zk_ctime(path); '
+            'zkutils.get and get_with_metadata return the stored payload and raise NoNodeError exactly on absent nodes '
+            '(dependency contracts); paths are built by treadmill.zknamespace.path.* (pure string builders: '
+            'uninterpreted functions of their arguments); payloads are JSON objects modelled as maps of atoms',
+            'file system dependency contract (pyvc/engine_fs.py): (directory, name) paths with kind, content token '
+            'and creation time; glob(<dir>/*) lists the names present that do not start with a dot (fs_hidden); '
+            'os.unlink / os.stat as documented there',
+            'ATOMICITY IS ASSUMED, NOT PROVED: fs.write_safe (tempfile in the same directory + os.replace) is modelled '
+            'as one atomic step - afterwards the file holds what the callback wrote, and if the callback raises nothing '
+            'changes under the instance\'s name; the statement\'s last sentence (a reader or a crash never observes a '
+            'partial manifest) therefore rests on that dependency contract; what IS proved is that the cache file is '
+            'only ever written through write_safe (a direct open()/write would leave the modelled subset). '
+            'yaml.dump is a function of the object (content token yaml_of)',
+            'task id = app[app.index("#") + 1:] is kept symbolic (same term in code and contract); an empty '
+            '/scheduled node (no manifest) makes the real code raise TypeError before touching the cache - allowed '
+            'by the contract as an exceptional outcome that changes nothing under that name',
+            'the cache directory holds only regular files; instance names are not hidden names; sequential (the '
+            'ChildrenWatch callback is not re-entered); EventMgr.run / _cache_notify (ready marker) not under contract',
         ],
     },
     'C14': {
